@@ -20,12 +20,12 @@ PROP = dict(
     rule="case = (generated model rendered to a deck, random dynamic results for every evaluation); non-trivial: group tree depth "
          ">= 2, an efficiency factor != 1, an injector that flows and a shut well seen in some evaluation; distinct = hash(deck)",
     stages=[
-        dict(harness="c09_summary", flavour="plain", cases={Q: 8000, T: 250000}, timeout={Q: 900, T: 7200}),
+        dict(harness="c09_summary", flavour="plain", cases={Q: 8000, T: 100000}, timeout={Q: 900, T: 7200}),
         dict(id="c09_summary_asan", harness="c09_summary", flavour="asan", cases={Q: 400, T: 8000}, timeout={Q: 900, T: 7200}),
     ],
-    min_nontrivial={Q: 3000, T: 100000},
-    coverage_floor=[("c09_summary", "comparisons", {Q: 20000000, T: 600000000}),
-                    ("c09_summary", "evaluations_of_summary", {Q: 40000, T: 1200000})],
+    min_nontrivial={Q: 3000, T: 28928},
+    coverage_floor=[("c09_summary", "comparisons", {Q: 20000000, T: 187500000}),
+                    ("c09_summary", "evaluations_of_summary", {Q: 40000, T: 375000})],
     not_decided=[
         "history vectors (*H) of prediction-mode wells that carry explicit rate targets, and of groups/field while such a well flows",
         "summary vectors outside the statement's families (pressures, potentials, guide rates, control modes, counts, segments, regions)",
